@@ -8,6 +8,7 @@ import (
 	"path/filepath"
 	"strings"
 	"sync"
+	"sync/atomic"
 	"time"
 
 	"github.com/netflix/rend/handlers"
@@ -30,7 +31,8 @@ func checkC06(tier, replay string) int {
 	run := evid.NewRun("C06", tier, "exploration")
 	run.Rule("batched.NewHandler against std.NewHandler on two identical fake backends: (a) the same sequential command sequence (every command kind, hit and miss variants, multi-key gets with duplicate keys and mixed quiet flags, gete) through both handlers - " +
 		"outcome class, data, flags (and exptime for gete) must be equal and equal to the model; (b) 1..64 concurrent callers with private keys and unique values, each with an exact sequential model, multi-gets must deliver exactly one response per requested (key, opaque, quiet). " +
-		"Options grid: batch size {1,2,10,64} x batch delay {50us,250us,5ms} x pool size {1,2,4,8} (pool grown through the verif hook), fresh pool per configuration; race detector on. " +
+		"Options grid: batch size {1,2,10,64} x batch delay {50us,250us,5ms} x pool size {1,2,4,8} (pool grown through the verif hook), fresh pool per configuration; race detector on; " +
+		"(c) concurrent callers exchanging 300 KB - 1 MB values (a batch whose reply and request both exceed the socket buffers); (d) cold start: 2-8 callers construct and use their handler for a socket without a pool at the same moment, backend listening already or 60 ms later. " +
 		"distinct_nontrivial = distinct (options, callers, op-kind sequence) + observed burst sizes at the backend")
 	res := spawnChild(run, "C06", 25*time.Minute, nil)
 	if res.TimedOut {
@@ -53,10 +55,17 @@ type c06Cfg struct {
 	DelayUS   int
 	Pool      int
 	Callers   int
+	// Large: values of 300 KB - 1 MB, so that one batch carries a reply and a request that are
+	// each larger than the socket buffers (writing a batch and reading its replies overlap)
+	Large bool
 }
 
 func (c c06Cfg) String() string {
-	return fmt.Sprintf("size=%d delay=%dus pool=%d callers=%d", c.BatchSize, c.DelayUS, c.Pool, c.Callers)
+	l := ""
+	if c.Large {
+		l = " large-values"
+	}
+	return fmt.Sprintf("size=%d delay=%dus pool=%d callers=%d%s", c.BatchSize, c.DelayUS, c.Pool, c.Callers, l)
 }
 
 type c06Env struct {
@@ -119,12 +128,16 @@ func childC06(args []string) int {
 		for _, bs := range []int{1, 2, 10, 64} {
 			for _, d := range []int{50, 250, 5000} {
 				for _, pool := range []int{1, 2, 4, 8} {
-					cfgs = append(cfgs, c06Cfg{bs, d, pool, []int{1, 2, 8, 64}[rng.Intn(4)]})
+					cfgs = append(cfgs, c06Cfg{bs, d, pool, []int{1, 2, 8, 64}[rng.Intn(4)], false})
 				}
 			}
 		}
 	} else {
-		cfgs = []c06Cfg{{1, 50, 1, 2}, {2, 250, 1, 8}, {10, 250, 2, 8}, {10, 50, 4, 64}, {64, 5000, 1, 64}, {64, 250, 8, 8}, {2, 5000, 2, 1}, {10, 250, 1, 64}}
+		cfgs = []c06Cfg{{1, 50, 1, 2, false}, {2, 250, 1, 8, false}, {10, 250, 2, 8, false}, {10, 50, 4, 64, false}, {64, 5000, 1, 64, false}, {64, 250, 8, 8, false}, {2, 5000, 2, 1, false}, {10, 250, 1, 64, false}}
+	}
+	cfgs = append(cfgs, c06Cfg{10, 5000, 1, 4, true})
+	if run.Thorough() {
+		cfgs = append(cfgs, c06Cfg{64, 5000, 2, 8, true}, c06Cfg{2, 250, 1, 3, true})
 	}
 	for ci, cfg := range cfgs {
 		env, err := newC06Env(cfg)
@@ -193,6 +206,9 @@ func childC06(args []string) int {
 		// (b) concurrent callers with private keys
 		announceCase("concurrent " + cfg.String())
 		nops := run.Pick(60, 200)
+		if cfg.Large {
+			nops = run.Pick(24, 60)
+		}
 		var wg sync.WaitGroup
 		start := make(chan struct{})
 		for caller := 0; caller < cfg.Callers; caller++ {
@@ -209,8 +225,18 @@ func childC06(args []string) int {
 				for i := 0; i < nops; i++ {
 					k := ns + fmt.Sprint(r.Intn(3))
 					var c wire.Cmd
-					switch r.Intn(12) {
+					sel := r.Intn(12)
+					if cfg.Large {
+						// big stores and reads of them only: half of the operations each
+						sel = []int{0, 5}[r.Intn(2)]
+					}
+					switch sel {
 					case 0, 1, 2:
+						if cfg.Large {
+							c = wire.Cmd{Op: "set", Key: k, Value: makeValue(id, []int{300000, 1 << 20}[r.Intn(2)]), Flags: r.Uint32()}
+							id++
+							break
+						}
 						c = wire.Cmd{Op: "set", Key: k, Value: makeValue(id, []int{0, 5, 100, 3000}[r.Intn(4)]), Flags: r.Uint32(), TTL: 0}
 						id++
 					case 3:
@@ -265,6 +291,89 @@ func childC06(args []string) int {
 		}
 		_ = handlers.NilHandler
 		env.close()
+	}
+
+	// (c) cold start: several callers construct their handler for a socket that has no pool yet
+	// at the same moment and use it at once (with the backend already listening, or starting
+	// to listen a little later)
+	for cs := 0; cs < run.Pick(16, 120); cs++ {
+		c06Seq++
+		dir := filepath.Join(harness.Scratch(), fmt.Sprintf("c06-cold-%d-%d", os.Getpid(), c06Seq))
+		os.MkdirAll(dir, 0o755)
+		sock := filepath.Join(dir, "b.sock")
+		st := fakemc.NewStore("cold")
+		late := cs%2 == 1
+		callers := []int{2, 4, 8}[cs%3]
+		announceCase(fmt.Sprintf("cold start callers=%d late=%v", callers, late))
+		listen := func() error {
+			_, err := fakemc.Listen(st, "unix", sock)
+			return err
+		}
+		if !late {
+			if err := listen(); err != nil {
+				run.Inconclusive("cold start: cannot listen: " + err.Error())
+				continue
+			}
+		}
+		opts := batched.Opts{BatchSize: uint32([]int{1, 10}[cs%2]), BatchDelayMicros: 250, EvaluationIntervalSec: 3600}
+		var wg sync.WaitGroup
+		var gate int32
+		var badMu sync.Mutex
+		bad := ""
+		var witness map[string]interface{}
+		for caller := 0; caller < callers; caller++ {
+			wg.Add(1)
+			go func(caller int) {
+				defer wg.Done()
+				atomic.AddInt32(&gate, 1)
+				for atomic.LoadInt32(&gate) < int32(callers) {
+				}
+				h := batched.NewHandler(sock, opts)
+				m := model.New(st.Now)
+				k := fmt.Sprintf("cold%d.%d", cs, caller)
+				for _, c := range []wire.Cmd{
+					{Op: "set", Key: k, Value: makeValue(uint32(cs*100+caller+1), 40), Flags: uint32(caller + 7)},
+					{Op: "get", Keys: []string{k}, Opaque: 0x31},
+					{Op: "get", Keys: []string{k, k + "x", k}, Opaque: 0x40, NoopEnd: true},
+					{Op: "append", Key: k, Value: []byte("+tail")},
+					{Op: "gat", Key: k, Opaque: 0x51},
+				} {
+					exp := expected(m, c, true)
+					obs := handlerExec(h, c, 0)
+					run.Count("cold_start_operations", 1)
+					if d := diffResult(c, exp, obs, true); d != "" {
+						badMu.Lock()
+						if bad == "" {
+							bad = opKind(c) + "|" + d
+							witness = map[string]interface{}{"callers": callers, "backend_listens_late": late, "caller": caller, "command": c.Short(), "expected": brief(exp), "observed": brief(obs),
+								"backend_requests_seen": len(st.Log())}
+						}
+						badMu.Unlock()
+						return
+					}
+				}
+			}(caller)
+		}
+		if late {
+			time.Sleep(60 * time.Millisecond)
+			if err := listen(); err != nil {
+				run.Inconclusive("cold start: cannot listen: " + err.Error())
+			}
+		}
+		done := make(chan struct{})
+		go func() { wg.Wait(); close(done) }()
+		select {
+		case <-done:
+		case <-time.After(120 * time.Second):
+			run.Inconclusive("cold-start callers did not finish within the watchdog")
+			panic("watchdog: cold-start callers stuck")
+		}
+		run.Eval(1)
+		run.Count("cold_start_cases", 1)
+		run.Distinct(fmt.Sprintf("cold|%d|%v|%d", callers, late, opts.BatchSize))
+		if bad != "" {
+			run.Violation("batched|cold start|"+bad, witness)
+		}
 	}
 	return finish()
 }
